@@ -1,10 +1,15 @@
 package snapio
 
 import (
+	"bytes"
+	"fmt"
 	"sort"
 	"testing"
 
+	"github.com/lni/dragonboat/v4/internal/rsm"
 	"github.com/lni/dragonboat/v4/internal/vfhelp"
+	"github.com/lni/dragonboat/v4/internal/vfs"
+	pb "github.com/lni/dragonboat/v4/raftpb"
 	"pgregory.net/rapid"
 )
 
@@ -55,4 +60,56 @@ func TestVF_C14_Stream(t *testing.T) {
 	st := vfhelp.NewStats("TestVF_C14_Stream", ruleStream)
 	defer st.Flush()
 	rapid.Check(t, Stream(st, V2Flavor(), 25))
+}
+
+// TestVF_C14_ReproS7 is the minimal deterministic reproduction of the S7
+// finding (no generated input); it reports through Stats.Known.
+func TestVF_C14_ReproS7(t *testing.T) {
+	st := vfhelp.NewStats("TestVF_C14_ReproS7", "one fixed scenario: minimal reproduction of the known finding of C14 (no generated input)")
+	defer st.Flush()
+	fl := V2Flavor()
+	fs := vfs.NewMemFS()
+	if err := fs.MkdirAll("/ss", 0o755); err != nil {
+		t.Fatal(err)
+	}
+	fp := "/ss/snapshot-0000000000000001.gbsnap"
+	payload := bytes.Repeat([]byte("dragonboat"), 100)
+	session := rsm.GetEmptyLRUSession()
+	if _, err := SaveFile(fs, fp, fl.Writer, pb.Snappy, session, [][]byte{payload}); err != nil {
+		t.Fatal(err)
+	}
+	file, err := ReadFile(fs, fp)
+	if err != nil {
+		t.Fatal(err)
+	}
+	lay := ParseLayout(file, true)
+	slot := file[8+lay.RecLen : 12+lay.RecLen]
+	st.Set("header_crc_slot_of_file_written_snapshot", fmt.Sprintf("%x", slot))
+	// the last byte of the header record is the compression type: Snappy (1) -> NoCompression (0)
+	mut := Flip(file, (8+lay.RecLen-1)*8)
+	verdict := ValidateChunks(SplitFile(mut, BlockSize))
+	recv := "/ss/received.gbsnap"
+	if err := WriteFile(fs, recv, mut); err != nil {
+		t.Fatal(err)
+	}
+	l := LoadFile(fs, recv, nil, false)
+	st.Set("validator_accepted", verdict.Accepted)
+	st.Set("load_of_received_file", l.Why())
+	st.Set("header_seen_by_reader", fmt.Sprintf("%+v", l.Header))
+	switch {
+	case !verdict.Accepted:
+		st.Count("repro-s7-validator-rejects", 1)
+	case !l.Failed():
+		if !bytes.Equal(l.SM.Got, payload) {
+			vfhelp.Fail(t, "c14-flip-altered-data-loaded", "altered data loaded")
+		}
+		st.Count("repro-s7-accepted-harmless", 1)
+	default:
+		st.Known(t, SigUnloadableAccepted,
+			"minimal reproduction: snapshot file written by rsm.SnapshotWriter with Snappy compression, header CRC slot = %x; bit 0 of the compression type byte (file offset %d) flipped; "+
+				"SnapshotValidator accepts the chunk stream; NewSnapshotReader accepts the header (%+v); loading fails only in the session loader: %s",
+			slot, 8+lay.RecLen-1, l.Header, l.Why())
+		st.Count("repro-s7-accepted-unloadable", 1)
+	}
+	st.Case([]byte("repro-s7"), false, "fixed-scenario")
 }
